@@ -280,10 +280,18 @@ func goldenKinds(ct *CodecType) map[string]bool {
 }
 
 // bodySpan: indices [first,last) of the layout fields that form the body of a length field at index li.
-func bodySpan(l *Layout, li int) (int, int) {
+func bodySpan(l *Layout, li int, gold []*FieldLayout) (int, int) {
 	end := len(l.Fields)
 	for i := li + 1; i < len(l.Fields); i++ {
-		if l.Fields[i].Kind == "checksum" {
+		// the trailer: the field computed by a checksum service – or, on a path where the service is not registered and
+		// the caller's value is written as it is, the field the pinned schema marks as the checksum
+		pinnedTrailer := false
+		for _, gf := range gold {
+			if gf.Kind == "checksum" && gf.Name != "" && gf.Name == l.Fields[i].Name {
+				pinnedTrailer = true
+			}
+		}
+		if l.Fields[i].Kind == "checksum" || pinnedTrailer {
 			end = i
 			break
 		}
@@ -319,6 +327,11 @@ func (a *Analysis) CheckC04(rep *Report) {
 		pos := a.P.Pos(ct.Encode.Pos())
 		rep.Ob("L0-analysable", ct.Name, r.EncErr == nil && len(r.Enc) > 0, pos, fmt.Sprint("Encode not analysable: ", r.EncErr))
 		for _, pl := range r.Enc {
+			a.checkLenPath(rep, ct, pl)
+		}
+		// the paths on which a checksum service is not registered (infeasible while nothing but start-up code changes
+		// the registry, but Remove and Clear are exported): the length is computed and patched there all the same
+		for _, pl := range r.EncUnregistered {
 			a.checkLenPath(rep, ct, pl)
 		}
 		rep.Sample(map[string]interface{}{"frame": ct.Name, "success_paths": len(r.Enc), "example": describeLenPath(r)})
@@ -422,7 +435,11 @@ func (a *Analysis) checkLenPath(rep *Report, ct *CodecType, pl *PathLayout) {
 	rep.Ob("L2-patch-type-order", key, (patch.Order == ph.Order || zeroPh) && sameIntShape(patch.IntType, ph.IntType), ppos,
 		fmt.Sprintf("placeholder is %s/%s but the patch writes %s/%s", typeStr(ph.IntType), ph.Order, typeStr(patch.IntType), patch.Order))
 	// L1
-	first, last := bodySpan(pl.Layout, li)
+	var gold []*FieldLayout
+	if g, err := loadGolden(); err == nil {
+		gold = g.Types[ct.Name]
+	}
+	first, last := bodySpan(pl.Layout, li, gold)
 	nb := 0
 	for i := first; i < last; i++ {
 		nb += topLevelCount(pl.Layout.Fields[i])
@@ -872,6 +889,20 @@ func (a *Analysis) CheckC06(rep *Report) {
 				}
 			}
 			_ = pi
+		}
+	}
+	// A4: "depends only on the message" presupposes that the message's memory is its own: a decoded list or text that
+	// is a window into the buffer it was read from changes when that buffer is written again – and with it the bytes a
+	// later encode of the message appends (into that very buffer, for one). Whether decoded values own their memory is
+	// what C16 decides.
+	{
+		scratch := NewReport("C16", "other", "quick", 0)
+		a.CheckC16(scratch)
+		for _, v := range scratch.Violations {
+			rep.Ob("A4-messages-own-their-memory-verified-by-C16", v.Key, false, v.Pos, "a decoded value can share memory with a buffer (C16): encoding it is then not a function of the message alone: "+v.Msg)
+		}
+		if len(scratch.Violations) == 0 {
+			rep.Ob("A4-messages-own-their-memory-verified-by-C16", "all-types", true, "", "")
 		}
 	}
 	rep.Counts["encode_paths"] = npaths
